@@ -66,12 +66,13 @@ type WorkerResult struct {
 
 // Env is the per-process context of a running check.
 type Env struct {
-	Check    *Check
-	Tier     string
-	Seed     int64
-	Shard    int
-	Of       int
-	Deadline time.Time
+	Check        *Check
+	Tier         string
+	Seed         int64
+	Shard        int
+	Of           int
+	Deadline     time.Time
+	tailDeadline time.Time
 
 	caseNo int64
 	beat   int64 // heartbeat (see Expired)
@@ -129,6 +130,24 @@ func (e *Env) Expired() bool {
 }
 
 func (e *Env) Capped() { e.res.Capped = true }
+
+// ReserveTail keeps the last quarter of the time budget for the parts of a check that
+// come after its main enumeration (BeginTail); without it a main enumeration that runs
+// into the deadline would starve them.
+func (e *Env) ReserveTail() {
+	if e.Deadline.IsZero() || !e.tailDeadline.IsZero() {
+		return
+	}
+	e.tailDeadline = e.Deadline
+	e.Deadline = e.Deadline.Add(-time.Until(e.Deadline) / 4)
+}
+
+// BeginTail makes the reserved time available.
+func (e *Env) BeginTail() {
+	if !e.tailDeadline.IsZero() {
+		e.Deadline = e.tailDeadline
+	}
+}
 
 // Beat tells the watchdog that the worker is alive (long waits on subprocesses).
 func (e *Env) Beat()                  { atomic.AddInt64(&e.beat, 1) }
